@@ -65,16 +65,19 @@ class LTask:
 class Sim:
     def __init__(self, seed, *, workers=4, strategy="random", switch_p=0.3,
                  max_events=60000, max_time=4 * 3600.0, trace_files=None,
-                 line_p=0.0, pct_changes=3, drain_on_error=True, stall_p=0.0):
+                 line_p=0.0, pct_changes=3, drain_on_error=True, stall_p=0.0,
+                 line_cost=0.005):
         self.seed = seed
         self.rng = random.Random(seed)
         self.workers = workers
         self.strategy = strategy          # 'random' | 'pct' | 'inorder'
         self.switch_p = switch_p
-        self.max_events = max_events
+        # line-level pre-emption logs one event per pre-empted line: allow more of them
+        self.max_events = max_events * (10 if (trace_files and line_p > 0) else 1)
         self.max_time = max_time
         self.trace_files = tuple(trace_files or ())
         self.line_p = line_p
+        self.line_cost = line_cost        # virtual seconds a line-level pre-emption may last
         self.drain_on_error = drain_on_error
         self.stall_p = stall_p            # share of logical tasks that are 'slow nodes'
         self.now = 0.0
@@ -313,7 +316,11 @@ class Sim:
                 self.line_hook(frame)
             if self.rng.random() < self.line_p and not _lock_holder_on_stack(frame):
                 code = frame.f_code
-                self.point("line", (code.co_name, frame.f_lineno))
+                # a pre-empted thread is descheduled for a while (virtual time): without
+                # this, tasks that mostly wait for storage at different virtual times are
+                # never inside the same two-line window together
+                cost = self.line_cost * self.rng.choice((0.0, 0.0, 0.3, 3.0, 30.0))
+                self.point("line", (code.co_name, frame.f_lineno), cost)
         return self._trace_line
 
     def enable_line_tracing_here(self):
